@@ -97,6 +97,55 @@ def run(ctx):
                 if a_ is None or a_ != d_:
                     ctx.violation("B:C15:entry-bounds:%s:%s" % (args, re.sub(r"\s+", " ", item)[:200]), "#[derive(Ex)] and #[derive_ex(..)] generate different impls for an item with nested derive_ex bound arguments",
                                   {"layer": "B", "item": item, "args": args, "attr": a_, "derive": d_})
+    # relation (c) with per-trait arguments: `Trait(bound(..))` belongs to that entry only, whatever precedes or follows it in the list,
+    # and the list-wide `bound(..)` to every entry of its own list only
+    PT_ARGS = ["", "", "(bound())", "(bound(T: M%d))", "(bound(T: M%d, ..))", "(bound(..))", "(bound(Vec<T>))"]
+    SHARED = ["", "", ", bound(T: S%d)", ", bound(T: S%d, ..)", ", bound()"]
+    for k in range(150 if ctx.quick else 6000):
+        is_enum = rng.random() < 0.4
+        pool = G.TRAITS_ENUM if is_enum else [t for t in G.TRAITS_STRUCT if t not in ("Deref", "DerefMut")]
+        traits = rng.sample(pool, rng.randint(2, 4))
+        ents = [t + (rng.choice(PT_ARGS).replace("%d", str(i))) for i, t in enumerate(traits)]
+        item = ("enum X<T> { #[default] A(Option<T>), B { b: T } }" if is_enum else rng.choice(["struct X<T> { a: Option<T>, b: u8 }", "struct X<T>(T);"]))
+        if "Copy" in traits and "Clone" not in traits:
+            pass      # expansion only; no type-check involved
+        def expand(groups):
+            """groups: list of (entries, shared) -> one #[derive_ex(..)] attribute each"""
+            src = " ".join("#[derive_ex(%s%s)]" % (", ".join(es), sh) for es, sh in groups) + " " + item
+            return src, impls_of(ex.derive(src), False)
+        sh = rng.choice(SHARED).replace("%d", "0")
+        src, tog = expand([(ents, sh)])
+        evals += 1
+        nontriv += 1
+        pt = per_trait(tog, traits) if tog is not None else None
+        if pt is None:
+            ctx.violation("B:C15:pertrait:%s" % src, "expansion failed or impls do not appear entry by entry", {"layer": "B", "item": src, "together": tog})
+            continue
+        for idx, e in enumerate(ents):
+            _, alone = expand([([e], sh)])
+            evals += 1
+            if alone != pt[idx]:
+                ctx.violation("B:C15:pertrait:%s:%s" % (e, src), "impl of %s differs when requested alone vs. inside the list (per-trait arguments of a neighbour leak, or its own are lost)" % e,
+                              {"layer": "B", "item": src, "entry": e, "together": pt[idx], "alone": alone})
+                break
+        # split into two attributes, each with its own shared bound: entries keep their own list's shared bound
+        cut = rng.randint(1, len(ents) - 1)
+        sh2 = rng.choice(SHARED).replace("%d", "1")
+        src2, sp = expand([(ents[:cut], sh), (ents[cut:], sh2)])
+        evals += 1
+        pt2 = per_trait(sp, traits) if sp is not None else None
+        if pt2 is None:
+            ctx.violation("B:C15:pertrait-split:%s" % src2, "expansion failed or impls do not appear entry by entry", {"layer": "B", "item": src2, "split": sp})
+            continue
+        for idx, e in enumerate(ents):
+            _, alone = expand([([e], sh if idx < cut else sh2)])
+            evals += 1
+            if alone != pt2[idx]:
+                ctx.violation("B:C15:pertrait-split:%s:%s" % (e, src2), "impl of %s differs when requested alone vs. in one of two derive_ex attributes" % e,
+                              {"layer": "B", "item": src2, "entry": e, "together": pt2[idx], "alone": alone})
+                break
+        if len(ctx.violations) > 30:
+            break
     # systematic part of relation (c): every comparison trait, alone vs. with every co-derived subset of the other comparison traits,
     # on fields carrying only helper attributes that belong to that trait
     import itertools, cmpfam
